@@ -29,7 +29,7 @@ RULE = (
     "op in {repeat, repeat_range}; (leaf, alignment, d) for padding. (B) all operator trees of the tier's depth over 8 leaves, "
     "counts {0,1,2,3,5}+far, alignments {1,2,3,8} (+{5,12,16,64} at depth 1), plus every cat/uni of two (13-tree alphabet) or three (6-tree alphabet) "
     "COMPOSED operands with one unary operator on top; divisors of the tier plus {2**32, 2**63-1, 10**18+9} when all counts are <= 8, each also asked in "
-    "descending order of a fresh object; every tree is asked min/max/fixed_length, %d and is_aligned_at(d) for "
+    "descending order of a fresh object; unions / concatenations of operands that differ as sets but agree in min, max and residues mod 32 (32 such leaves, all ordered pairs); every tree is asked min/max/fixed_length, %d and is_aligned_at(d) for "
     "every d of the tier, is_aligned_at_byte, and iteration/len whenever the implementation's own expansion stays below the "
     "expansion budget. (C) all permutations of the query set on fresh objects. A case is non-trivial iff the tree has an "
     "operator node and either the reference residue set/expansion has >= 2 elements or a repetition count >= divisor is "
@@ -110,7 +110,36 @@ def both_composed():
         yield ["uni", [x, y, z]]
 
 
+def colliding_leaves():
+    """32 DIFFERENT sets that the approximate BitLengthSet.__eq__/__hash__ cannot tell apart: same min (0), same max (200), same
+    residues modulo 32 ({0, 8}).  Anything keyed by that equality (de-duplication, caches) confuses them."""
+    mid = [40, 72, 104, 136, 168]
+    out = []
+    for mask in range(32):
+        out.append(leaf([0] + [m for i, m in enumerate(mid) if mask >> i & 1] + [200]))
+    return out
+
+
+def collisions():
+    """unions / concatenations whose operands collide under the approximate equality, bare and under one more operator"""
+    ls = colliding_leaves()
+    for a, b in itertools.permutations(ls, 2):
+        yield ["uni", [a, b]]
+    for a, b in itertools.permutations(ls[::3], 2):
+        yield ["cat", [a, b]]
+        yield ["uni", [["pad", a, 16], ["pad", b, 16]]]
+        yield ["uni", [["rep", a, 2], ["rep", b, 2]]]
+        yield ["cat", [["uni", [a, leaf([8])]], ["uni", [b, leaf([8])]]]]
+        yield ["pad", ["uni", [a, b]], 64]
+    for a, b, c in itertools.permutations(ls[1::5], 3):
+        yield ["uni", [a, b, c]]
+        yield ["uni", [a, ["uni", [b, c]]]]
+
+
 def trees(depth: int):
+    if depth == "collisions":
+        yield from collisions()
+        return
     if depth == 0:
         for v in LEAVES:
             yield leaf(v)
@@ -195,6 +224,8 @@ def plan(tier):
             shards.append({"kind": "trees", "depth": dd, "part": p, "parts": pp})
     for p in range(16):
         shards.append({"kind": "trees", "depth": "both", "part": p, "parts": 16})
+    for p in range(8):
+        shards.append({"kind": "trees", "depth": "collisions", "part": p, "parts": 8})
     for p in range(16):
         shards.append({"kind": "hist", "part": p, "parts": 16})
     return shards
